@@ -221,6 +221,33 @@ def driveC13 (args : List String) : String :=
     s!"tls={b01 (Creds.peerHasTLS from_ (conn == "conntls=1"))}"
   | _ => "bad-op"
 
+def showEntries (es : List (Bytes × Nat)) : String :=
+  let xs := es.map fun (n, d) => s!"{showBytes n}:{d}"
+  "[" ++ ",".intercalate (xs.toArray.qsort (· < ·)).toList ++ "]"
+
+def driveC15 (args : List String) : String :=
+  match args with
+  | [_carrier, hist] =>
+    let ops := ((hist.drop 5).toString.splitOn ";")
+    let (_, outs) := ops.foldl (fun (acc : Registry.State × List String) op =>
+      let (s, outs) := acc
+      match op.splitOn ":" with
+      | ["r", n, d, t] =>
+        match hexArg n, d.toNat? with
+        | some nb, some dn =>
+          let (s', p) := Registry.register s ⟨nb, dn, 1, t == "1"⟩
+          (s', outs ++ [if p then "panic" else "ok"])
+        | _, _ => (s, outs ++ ["bad-op"])
+      | ["q", n] =>
+        match hexArg n with
+        | some nb => (s, outs ++ [match Registry.query s nb with | some (d, _) => toString d | none => "none"])
+        | none => (s, outs ++ ["bad-op"])
+      | ["f"] => (s, outs ++ [showEntries ((Registry.forEach s).map fun e => (e.1, e.2.1))])
+      | ["i"] => (s, outs ++ [showEntries (Registry.info s)])
+      | _ => (s, outs ++ ["bad-op"])) (([] : Registry.State), ([] : List String))
+    " ".intercalate outs
+  | _ => "bad-op"
+
 def dispatch (line : String) : String :=
   match (line.splitOn " ").filter (· ≠ "") with
   | "C14" :: rest => driveC14 rest
@@ -229,6 +256,7 @@ def dispatch (line : String) : String :=
   | "C12" :: rest => driveC12 rest
   | "C11" :: rest => driveC11 rest
   | "C13" :: rest => driveC13 rest
+  | "C15" :: rest => driveC15 rest
   | _ => "bad-op"
 
 partial def loop (h : IO.FS.Stream) (out : IO.FS.Stream) : IO Unit := do
